@@ -102,6 +102,8 @@ func pricingText(name string) string {
 		return fmt.Sprintf(`{"price":"4stake","promotions_by_time":[{"start_time":"%s","end_time":"%s","discount":"0.5"}]}`, ts(1), ts(3))
 	case "p4tr": // two disjoint windows listed newest first (rejected by the unmodified module)
 		return fmt.Sprintf(`{"price":"4stake","promotions_by_time":[{"start_time":"%s","end_time":"%s","discount":"0.9"},{"start_time":"%s","end_time":"%s","discount":"0.5"}]}`, ts(5), ts(7), ts(1), ts(3))
+	case "p20t": // base 20, half price during the first three seconds
+		return fmt.Sprintf(`{"price":"20stake","promotions_by_time":[{"start_time":"%s","end_time":"%s","discount":"0.5"}]}`, ts(0), ts(3))
 	case "p5":
 		return `{"price":"5stake"}`
 	case "p20":
